@@ -154,6 +154,36 @@ func (V *Verifier) srcText(v interface{}, pos token.Pos) string {
 	if af == nil {
 		return "?"
 	}
+	// go / defer statements: the text of the call they make
+	var stmtCall ast.Node
+	ast.Inspect(af, func(n ast.Node) bool {
+		if n == nil {
+			return false
+		}
+		if !(n.Pos() <= pos && pos < n.End()) {
+			return false
+		}
+		switch s := n.(type) {
+		case *ast.GoStmt:
+			if s.Go == pos {
+				stmtCall = s.Call
+			}
+		case *ast.DeferStmt:
+			if s.Defer == pos {
+				stmtCall = s.Call
+			}
+		}
+		return true
+	})
+	if stmtCall != nil {
+		var buf bytes.Buffer
+		printer.Fprint(&buf, token.NewFileSet(), stmtCall)
+		s := strings.Join(strings.Fields(buf.String()), " ")
+		if len(s) > 60 {
+			s = s[:60]
+		}
+		return s
+	}
 	// innermost expression whose Pos()==pos, or which contains pos
 	var best ast.Node
 	ast.Inspect(af, func(n ast.Node) bool {
@@ -354,6 +384,9 @@ func (ex *Exec) applyContract(f *frame, st *State, c *Contract, callee *ssa.Func
 				ex.regComp("G:"+gv.Name, sort)
 			}
 			ex.havoc(st, "G:"+gv.Name)
+		} else if g == "dyncalls" {
+			ex.regComp("G:dyncalls", SInt)
+			ex.havoc(st, "G:dyncalls")
 		} else {
 			ex.havoc(st, g)
 		}
